@@ -36,7 +36,7 @@ func main() {
 		e := newEnv(os.Args[4] == "v9")
 		var idx int
 		fmt.Sscan(os.Args[3], &idx)
-		if err := e.dump(e.build(e.contents(os.Args[2])[idx]), os.Args[5]); err != nil {
+		if err := e.dump(e.build(withBigContent(e, e.contents(os.Args[2]))[idx]), os.Args[5]); err != nil {
 			fmt.Println(err)
 			os.Exit(3)
 		}
@@ -407,9 +407,26 @@ func init() {
 	}
 }
 
+// withBigContent appends a LARGE cache (thousands of exporters; the file is several MiB): nothing about saving and
+// loading may depend on the file being small (round trips only - the crash and corruption spaces keep to the small ones).
+func withBigContent(e *env, cs []content) []content {
+	kinds := e.tplKinds()
+	big := content{name: "3500-exporters-2-templates"}
+	for i := 0; i < 3500; i++ {
+		a := net.IPv4(10, 9, byte(i>>8), byte(i))
+		for j, id := range []uint16{256, 300} {
+			t := kinds[(i+j)%len(kinds)]
+			t.ID = id
+			big.tpls = append(big.tpls, tplSpec{a, t})
+		}
+	}
+	return append(cs, big)
+}
+
 func roundtrip(v9 bool, tier string) mck.Space {
 	e := newEnv(v9)
 	cs := e.contents(tier)
+	cs = withBigContent(e, cs)
 	return mck.FuncSpace{N: uint64(len(cs)), F: func(idx uint64, c *mck.Ctx) {
 		ct := cs[idx]
 		what := func() interface{} {
